@@ -459,6 +459,7 @@ func runCheck(propID, repo, verif, tier string, verbose bool) int {
 		"integers are 64/32/16/8-bit machine integers (bit-vectors); nothing is treated as mathematical arithmetic",
 		"strings are an uninterpreted sort with length, concatenation and prefix axioms; string contents are opaque",
 		"pure functions are deterministic functions of their argument values and of the heap version (token) they are called in",
+		"a pure function that promises a fresh result is modelled as memoising (a second call with the same arguments in the same state denotes the storage of the first); #memo[...] obligations forbid writes to storage handed out twice, which makes the memoising program indistinguishable from the real one (the results are slices and maps, which Go code cannot compare for identity)",
 		"proofs of non-safety clauses assume the function does not panic before the clause's program point (absence of panics is property C19)",
 		"termination is not proved unless a decreases clause is listed")
 	if len(unknownCalls) > 0 {
@@ -471,6 +472,9 @@ func runCheck(propID, repo, verif, tier string, verbose bool) int {
 	}
 	for _, nd := range prop.NotDecided {
 		assumptions = append(assumptions, "not decided by this check: "+nd)
+	}
+	if len(p.Renamed) > 0 {
+		assumptions = append(assumptions, "contracts bound by signature to functions that were renamed since the contracts were written (every clause is still proved against the new body): "+strings.Join(p.Renamed, "; "))
 	}
 	if len(p.MirrorUse) > 0 {
 		assumptions = append(assumptions, "contract files missing in /repo (hook commits absent); the byte-identical mirror under /verif/contracts/mirror was used: "+strings.Join(p.MirrorUse, ", "))
